@@ -85,9 +85,19 @@ func fieldCases() []fieldCase {
 		{Name: "path_value_behind_pointer_to_pointer_skipcopy", Decls: "type PFXT struct {\n\tV []int\n\tN int\n}\ntype PFXN struct {\n\tF PFXT\n\tA [2]int\n\tI int\n}\ntype PFXIn struct{ Nested *PFXN }\ntype PFXOut struct {\n\tF *PFXT\n\tA *[2]int\n\tI *int\n}\n", Src: "PFXIn", Tgt: "PFXOut",
 			Conv: []string{"skipCopySameType"}, Lines: []string{"map Nested.F F", "map Nested.A A", "map Nested.I I"}, SkipCopy: true,
 			Pairs: map[string]*PairSpec{"PFXIn→PFXOut": {Fields: map[string]*FieldSpec{"F": fs("Nested", "F"), "A": fs("Nested", "A"), "I": fs("Nested", "I")}}}},
+		{Name: "path_value_two_hops_behind_pointer_to_pointer_skipcopy", Decls: "type PFXLeaf struct {\n\tV int\n\tW []int\n}\ntype PFXN struct{ Leaf PFXLeaf }\ntype PFXIn struct{ Nested *PFXN }\ntype PFXOut struct {\n\tF *int\n\tG *int\n\tW *[]int\n}\n", Src: "PFXIn", Tgt: "PFXOut",
+			Conv: []string{"skipCopySameType"}, Lines: []string{"map Nested.Leaf.V F", "map Nested.Leaf.V G", "map Nested.Leaf.W W"}, SkipCopy: true,
+			Pairs: map[string]*PairSpec{"PFXIn→PFXOut": {Fields: map[string]*FieldSpec{"F": fs("Nested", "Leaf", "V"), "G": fs("Nested", "Leaf", "V"), "W": fs("Nested", "Leaf", "W")}}}},
 		{Name: "path_value_behind_pointer_to_pointer_skipcopy_ptrsource", Decls: "type PFXT struct {\n\tV []int\n\tN int\n}\ntype PFXN struct {\n\tF PFXT\n\tI int\n}\ntype PFXIn struct{ Nested *PFXN }\ntype PFXOut struct {\n\tF *PFXT\n\tI *int\n}\n", Src: "*PFXIn", Tgt: "*PFXOut",
 			Conv: []string{"skipCopySameType"}, Lines: []string{"map Nested.F F", "map Nested.I I"}, SkipCopy: true,
 			Pairs: map[string]*PairSpec{"PFXIn→PFXOut": {Fields: map[string]*FieldSpec{"F": fs("Nested", "F"), "I": fs("Nested", "I")}}}},
+		// a defined pointer type on the path is a pointer like any other: nil at that hop never panics
+		{Name: "path_through_defined_pointer_type", Decls: "type PFXOwner struct {\n\tName string\n\tAddr *PFXAddr\n}\ntype PFXAddr struct{ City string }\ntype PFXOwnerRef *PFXOwner\ntype PFXIn struct {\n\tOwner PFXOwnerRef\n\tN int\n}\ntype PFXOut struct {\n\tName *string\n\tCity *string\n\tN int\n}\n", Src: "PFXIn", Tgt: "PFXOut",
+			Lines: []string{"map Owner.Name Name", "map Owner.Addr.City City"},
+			Pairs: map[string]*PairSpec{"PFXIn→PFXOut": {Fields: map[string]*FieldSpec{"Name": fs("Owner", "Name"), "City": fs("Owner", "Addr", "City")}}}},
+		{Name: "automap_through_defined_pointer_type", Decls: "type PFXOwner struct{ Name string }\ntype PFXOwnerRef *PFXOwner\ntype PFXIn struct {\n\tOwner PFXOwnerRef\n\tN int\n}\ntype PFXOut struct {\n\tName *string\n\tN int\n}\n", Src: "PFXIn", Tgt: "PFXOut",
+			Lines: []string{"autoMap Owner"},
+			Pairs: map[string]*PairSpec{"PFXIn→PFXOut": {Fields: map[string]*FieldSpec{"Name": fs("Owner", "Name")}}}},
 		{Name: "path_same_pointer_twice", Decls: "type PFXIs struct{ A int }\ntype PFXIt struct{ A int }\ntype PFXIn struct {\n\tNick *string\n\tP *PFXIs\n\tL *[]int\n}\ntype PFXOut struct {\n\tNick *string\n\tAlias *string\n\tThird *string\n\tP *PFXIt\n\tP2 *PFXIt\n\tL *[]int\n\tL2 *[]int\n}\n", Src: "PFXIn", Tgt: "PFXOut",
 			Lines: []string{"map Nick Alias", "map Nick Third", "map P P2", "map L L2"},
 			Pairs: map[string]*PairSpec{"PFXIn→PFXOut": {Fields: map[string]*FieldSpec{"Alias": fs("Nick"), "Third": fs("Nick"), "P2": fs("P"), "L2": fs("L")}}}},
@@ -121,6 +131,9 @@ func fieldCases() []fieldCase {
 		{Name: "skipcopy_identical_types_settings_kept", Decls: "type PFXIn struct {\n\tName string\n\tSecret string\n\tTitle string\n\tL []int\n}\n", Src: "PFXIn", Tgt: "PFXIn",
 			Conv: []string{"skipCopySameType"}, Lines: []string{"ignore Secret", "map Name Title"},
 			Pairs: map[string]*PairSpec{"PFXIn→PFXIn": {Fields: map[string]*FieldSpec{"Secret": {Ignore: true}, "Title": fs("Name")}}}},
+		{Name: "skipcopy_with_settings_identical_reference_positions", Decls: "type PFXIn struct {\n\tName string\n\tSecret string\n\tAny any\n\tC chan int\n\tL []int\n}\ntype PFXOut struct {\n\tName string\n\tSecret string\n\tAny any\n\tC chan int\n\tL []int\n}\n", Src: "PFXIn", Tgt: "PFXOut",
+			Conv: []string{"skipCopySameType"}, Lines: []string{"ignore Secret"}, SkipCopy: true,
+			Pairs: map[string]*PairSpec{"PFXIn→PFXOut": {Fields: map[string]*FieldSpec{"Secret": {Ignore: true}}}}},
 		{Name: "skipcopy_identical_pointer_types_settings_kept", Decls: "type PFXIn struct {\n\tName string\n\tSecret string\n\tL []int\n}\n", Src: "*PFXIn", Tgt: "*PFXIn",
 			Conv: []string{"skipCopySameType"}, Lines: []string{"ignore Secret"},
 			Pairs: map[string]*PairSpec{"PFXIn→PFXIn": {Fields: map[string]*FieldSpec{"Secret": {Ignore: true}}}}},
@@ -350,6 +363,8 @@ func fieldCases() []fieldCase {
 			Pairs: map[string]*PairSpec{"PFXIn→PFXOut": {IgnoreUnexported: true, Fields: map[string]*FieldSpec{"state": {Ignore: true}}}}},
 		{Name: "fail_path_behind_pointer_to_basic", Decls: "type PFXIn struct {\n\tPS *string\n\tPL *[]int\n\tN int\n}\ntype PFXOut struct {\n\tName string\n\tN int\n}\n", Src: "PFXIn", Tgt: "PFXOut",
 			Lines: []string{"map PS.X Name"}, Fail: "path continues behind a pointer to a non-struct"},
+		{Name: "fail_path_behind_pointer_to_pointer", Decls: "type PFXI struct{ Name string }\ntype PFXIn struct {\n\tInner **PFXI\n\tN int\n}\ntype PFXOut struct {\n\tName *string\n\tN int\n}\n", Src: "PFXIn", Tgt: "PFXOut",
+			Lines: []string{"map Inner.Name Name"}, Fail: "goverter:map path continuing behind a pointer to a pointer"},
 		{Name: "fail_path_behind_pointer_to_slice", Decls: "type PFXIn struct {\n\tPL *[]int\n\tN int\n}\ntype PFXOut struct {\n\tName string\n\tN int\n}\n", Src: "PFXIn", Tgt: "PFXOut",
 			Lines: []string{"map PL.X.Y Name"}, Fail: "path continues behind a pointer to a non-struct"},
 		{Name: "underscore_fields", Decls: "type PFXIn struct {\n\tName string\n\t_rev int\n\t_deleted *bool\n}\ntype PFXOut struct {\n\tName string\n\t_rev int\n\t_deleted *bool\n}\n", Src: "PFXIn", Tgt: "PFXOut",
